@@ -205,6 +205,23 @@ CLAIMED = {
         technique="TLA+ exact-lattice spec + TLC enumeration, replay into System.assemble; TLC trace validation of recorded assemblies",
         ref="5/C16",
     ),
+    "C04": dict(
+        level="model_checking",
+        text="RigidKinematics.tla gives position, velocity, acceleration of a body point, the kinematic equation, the gyroscopic force, "
+             "the mass matrix and all their partial derivatives as integer numerators over powers of |P|^2, for rigid bodies, point masses and "
+             "frames with polynomial-quaternion motion; TLC checks on the lattice (a uniqueness set for the cleared identities) that velocity is "
+             "the rate of position along the kinematic equation, acceleration the rate of velocity, the quaternion length is kept, gyroscopic "
+             "forces do no work, M is SPD and kinetic energy is u^T M u / 2, and that the frame's angular velocity/acceleration are those of its "
+             "rotation (derivatives by exact stencils, never the code's formulas). Every case is evaluated on one long-lived RigidBody (caches as "
+             "shipped, re-evaluated at translated positions), on Frames with analytic derivatives and on PointMass: 47 routine outputs per "
+             "rigid case compared with the spec's integers; the property's clauses are also evaluated on the code's own outputs.",
+        note="Identities on the grid -2..2 (thorough -3..3); binding on every 5th (3rd) quaternion of it x offsets x angular velocities x "
+             "angular accelerations (4.5k rigid cases, 54 frame cases, 36 point-mass cases). Agreement on the grid extends to all inputs under "
+             "the assumption that the routines compute rational functions without branching on magnitudes. Frames with numerically "
+             "differentiated motion are not judged.",
+        technique="TLA+ exact-lattice spec + TLC exhaustive grid (polynomial identity argument), replay into the implementation",
+        ref="4 and 5/C04",
+    ),
 }
 
 NOT_APPLICABLE = {
